@@ -374,17 +374,19 @@ class Model:
 
 
 # ----------------------------------------------------------------------------- quara side
-def build_qt(case, mdl):
+def build_qt(case, mdl, reverse=False, c_sys=None):
     from quara.protocol.qtomography.standard.standard_povmt import StandardPovmt
     from quara.protocol.qtomography.standard.standard_qmpt import StandardQmpt
     from quara.protocol.qtomography.standard.standard_qpt import StandardQpt
     from quara.protocol.qtomography.standard.standard_qst import StandardQst
 
-    c_sys = build.c_sys_for(case["shape"])
+    c_sys = build.c_sys_for(case["shape"]) if c_sys is None else c_sys
     states = [build.make(c_sys, "state", mdl.S[k]) for k in range(mdl.S.shape[0])]
     povms = [build.make(c_sys, "povm", p.reshape(-1), m=p.shape[0]) for p in mdl.P]
     tomo, flag = case["tomo"], bool(case["flag"])
-    if case.get("sched", "all") == "all":
+    if reverse:  # another tomography of the same type and sizes: the same testers in the opposite order, every schedule
+        states, povms = states[::-1], povms[::-1]
+    if reverse or case.get("sched", "all") == "all":
         sched = "all"
     else:
         sched = []
@@ -554,6 +556,14 @@ def check_exact_recovery(case, ctx):
     # the library's own consistency check: quara's circuit produces the data (truncation below 1e-8 is C08's documented behaviour;
     # its effect on the data is measured, not asserted, and propagated through |A^+|)
     true_obj = build.make(c_sys, TRUE_TYPE[tomo], x_true, m=true.get("m"))
+    # (the same true-object instance has been through the consistency check of ANOTHER tomography before: the answer is
+    # about the tomography given now)
+    try:
+        qt_other, _ = build_qt(case, mdl, reverse=True, c_sys=c_sys)
+        consistency_check.calc_mse_of_true_estimated(true_obj, qt_other, _estimator())
+        ctx.label("consistency:true_object_checked_before_on_other_tomography")
+    except (ValueError, np.linalg.LinAlgError) as e:  # the other tomography is only a warm-up
+        ctx.label("consistency:warmup_failed:" + type(e).__name__)
     mse, res2 = consistency_check.calc_mse_of_true_estimated(true_obj, qt, est)
     fq = qt.generate_prob_dists_sequence(true_obj)
     try:
